@@ -60,6 +60,7 @@ def run_check(pid: str, tier: str, repo=None) -> int:
     chk = Check(pid, tier, ctx.prog)
     mod = importlib.import_module(f'pkstatic.rules.{pid.lower()}')
     mod.run(chk, ctx)
+    ctx.definite_assignment(chk)
     if tier == 'thorough':
         from .report import load_known
         known, _ = load_known()
